@@ -75,6 +75,15 @@ func (e BadPortionParsingErr) Error() string {
 	return fmt.Sprintf("Bad portion: %s", e.Reason)
 }
 
+type InvalidAccountName struct {
+	parser.Range
+	Name string
+}
+
+func (e InvalidAccountName) Error() string {
+	return fmt.Sprintf("Invalid account name: '%s'", e.Name)
+}
+
 type MissingVariableErr struct {
 	parser.Range
 	Name string
